@@ -498,9 +498,19 @@ func parentMain(ck *Check, tier string, workers int, seed int64, capS int) int {
 
 	if ck.Finish != nil && len(r.Violations) == 0 {
 		if err := ck.Finish(r); err != nil {
-			fmt.Fprintf(os.Stderr, "INFRASTRUCTURE ERROR (vacuity guard): %v\n", err)
-			writeEvidence(ck, tier, seed, r, 0)
-			return 2
+			wallCapped := false
+			for _, c := range r.Caps {
+				wallCapped = wallCapped || strings.Contains(c, "wall-clock cap")
+			}
+			if !wallCapped {
+				fmt.Fprintf(os.Stderr, "INFRASTRUCTURE ERROR (vacuity guard): %v\n", err)
+				writeEvidence(ck, tier, seed, r, 0)
+				return 2
+			}
+			// the wall-clock cap ended the run before every part was reached (a starved machine): that is neither a verdict
+			// nor a defect of the check; the evidence says what was not reached (exhaustive:false)
+			r.Notes = append(r.Notes, "ended by the wall-clock cap before every part of the check was reached: "+err.Error())
+			fmt.Fprintf(os.Stderr, "note: %s ended by the wall-clock cap before every part was reached (%v); exhaustive=false\n", ck.ID, err)
 		}
 	}
 	return report(ck, tier, seed, r)
